@@ -382,7 +382,16 @@ def field_decl_type(sc, d, f):
     if f.ft[0] == "aopt": return f.alias + ("<'a>" if ft_has_lt(sc, f.ft[1]) else "")
     t = f.gshape if f.gparam else rust_ft(sc, f.ft)
     if t.startswith("Option<"):
-        k = field_spelling(f)["optpath"]
+        sp = field_spelling(f)
+        k = sp["optpath"]
+        if k == 3:
+            # parenthesised: `(Option<T>)` reaches the macro as Type::Paren, not Type::Path — like an alias it is optional through the
+            # trait methods only (Encode::is_nil / Decode::nil()), so it is written only where no codec item is present (a codec on a
+            # non-syntactic Option is finding F14) and no lifetime has to be found inside it
+            if f.codec() == "d" and sp["pas"] is None and not f.gparam and not ft_has_lt(sc, f.ft) and not f.b:
+                _count("optpath:paren")
+                return "(" + t + ")"
+            k = 0
         _count("optpath:" + OPTION_PATHS[k])
         t = OPTION_PATHS[k] + t[len("Option"):]
     return t
@@ -437,7 +446,7 @@ def field_spelling(f):
     if f.spell is None: sp = dict(CANON_SPELL)
     else:
         R = random.Random(f.spell)
-        sp = dict(optpath=R.choice((0, 0, 1, 2)), nested=R.random() < 0.4, sep=R.random() < 0.5, pas=None, short=R.random() < 0.5, group=None, shuffle=True)
+        sp = dict(optpath=R.choice((0, 0, 1, 2, 3)), nested=R.random() < 0.4, sep=R.random() < 0.5, pas=None, short=R.random() < 0.5, group=None, shuffle=True)
         if R.random() < 0.3: sp["pas"] = "with" if R.random() < 0.25 else R.choice(PASS_SETS)
         sp["seed"] = R.getrandbits(32)
     if f.force: sp.update(f.force)
@@ -1224,6 +1233,12 @@ def fixed_schemas():
     trs = lambda ft, shape, **force: Def("S", transparent=True, shape=shape, fields=[FS(ft, 0, sep=True, **force)])
     out["trs"] = mk("trs", [trs(("sp", "vecu8"), "t"), trs(("sp", "arr4u8"), "n", group="each"), trs(("sp", "vecu8"), "n", shuffle=True, seed=3),
                             trs(("sp", "optvecu8"), "t", shuffle=True, seed=1, group="each", optpath=1), trs(("sp", "nz0"), "t"), trs(("sp", "cowu8"), "n", nested=True)])
+    # trb: transparent newtypes over a #[b] Cow with a decode-capable codec: the decoded value must still borrow from the input
+    def trb(ft, shape, **force):
+        f = F(ft, 0, b=True); f.force = force
+        return Def("S", transparent=True, shape=shape, fields=[f])
+    out["trb"] = mk("trb", [trb(("sp", "cowu8"), "t"), trb(("sp", "cowu8"), "n", sep=True), trb(("sp", "cowu8"), "t", sep=True, nested=True, shuffle=True, seed=5),
+                            trb(("sp", "cowstr"), "t"), trb(("sp", "cowstr"), "n", pas=("dec",)), trb(("sp", "cowstr"), "t", pas="with")])
     # the example of the crate documentation (lib.rs:47-71)
     point = Def("S", fields=[F(("ty", "f64"), 0), F(("ty", "f64"), 1)])
     state = Def("E", variants=[Variant(0, "u", []), Variant(1, "n", [F(("ty", "u64"), 0)])])
